@@ -1,10 +1,31 @@
 """What MANIFEST.json claims. lib/mkmanifest.py turns this into MANIFEST.json."""
-HOOK_COMMITS = ["7356e9f"]
+HOOK_COMMITS = ["7356e9f", "eeb3885"]
 
 MC = "model_checking"
+NEGO_NOTE = ("Trusts: TLC; the in-tree Go server (with add-only verif overrides) as the peer; the harness logging faithfully "
+             "(binding canaries: a forged unoffered suite / a forged client version in a recorded good trace must be rejected, else exit 2); "
+             "the offer is parsed from the wire ClientHello by the TLA+ text, not by Go.")
 CLAIMED = {
  "C03": dict(level=MC, technique="TLA+ reference encoders (TLSWire/Parrots) evaluated by TLC over recorded wire ClientHellos (trace validation)",
    text="Every predefined parrot's real wire ClientHello (several connections, two SNI lengths, OmitEmptyPsk on/off) is judged by TLC against the spec dumped separately from UTLSIdToSpec: legacy version, suites, compression, extension order (multiset + fixed GREASE/padding/PSK positions for shuffling parrots) and each body via the TLA+ reference encoders. Sampling over connections, exhaustive over IDs.",
    note="Trusts the reflection dump of the spec structs, TLC, and that TLSWire's encoders state the RFC formats; the parrot table itself is taken as the definition of the fingerprint."),
+ "C10": dict(level=MC, technique="TLC enumeration of the compliant negotiation grid (NegoMC c10) + replay on real client/server + TLC trace validation (NegoTrace progress rules)",
+   text="TLC enumerates, from the dumped parrot specs and cipher-suite tables, the full product version x suite x group (incl. groups forcing HelloRetryRequest) x certificate kind x ALPN that each predefined parrot offers and the server implements, checks at model level that a compliant flight never gives the client a reason to abort, and every scenario is executed on the real code; TLC then requires completion + data echo whenever the server's recorded plaintext flight was acceptable, and allows a server refusal only where ServerCanSelect is false. Exhaustive over predefined parrots; randomized/custom specs are not in this grid.",
+   note=NEGO_NOTE),
+ "C11": dict(level=MC, technique="TLC trace validation of both ConnectionStates and exporter outputs (Negotiation!AgreeProblems) over the replayed compliant grid",
+   text="For every successful handshake of the compliant grid (quick: a seed-chosen third plus all ALPN scenarios; thorough: all) and RemoveSNIExtension variants, TLC compares version, suite, ALPN, curve, DidResume, ECHAccepted and server name (against the SNI parsed from the wire) and random exporter triples byte by byte.",
+   note=NEGO_NOTE + " Exporters the client refuses by the documented upstream rule (renegotiation enabled / no EMS) are not compared."),
+ "C12": dict(level=MC, technique="TLC enumeration of single server deviations (NegoMC c12) + replay with a self-consistent hooked server + TLC trace validation (Negotiation!Check*)",
+   text="Per parrot and base version TLC enumerates one deviation of the server from a compliant choice (unoffered suite, key-share group, HRR group, TLS1.2 curve, ALPN, compression method, PSK identity, session id not echoed); the model-level invariants show every deviation is detected by the specified client decisions and that a completed handshake only carries offered values; each scenario runs against the real client with a hooked server whose transcript contains the deviating message, and TLC rejects any trace in which the client completed or reports an unoffered value.",
+   note=NEGO_NOTE + " Certificate-compression algorithm is covered by C21's check; TLS1.2/1.3 suite-id confusion is not forced (the server cannot instantiate it)."),
+ "C13": dict(level=MC, technique="TLC table check AcceptRange subset of Advertised + enumeration of server version behaviours (NegoMC c13) + replay + TLC trace validation",
+   text="Every parrot x server version 1.0-1.3 x {honours supported_versions, negotiates from legacy_version (hook)} x downgrade sentinel {default, suppressed, forced (hook)} is executed; the advertised set is parsed from the wire hello in TLA+; a completion at an unadvertised version or despite the sentinel is rejected. Exhaustive over predefined parrots.",
+   note=NEGO_NOTE),
+ "C17": dict(level=MC, technique="TLC enumeration of HelloRetryRequests (NegoMC c17/c12) + replay + TLC diff of both wire ClientHellos (Negotiation!CH2Problems)",
+   text="Per TLS 1.3 parrot every offered classical group without a share x cookie {none,1,255 bytes} is forced as HRR; TLC diffs the two recorded ClientHellos (only key_share, cookie, padding may change; one fresh share of the requested group; cookie echoed; order kept) and requires completion; HRRs naming an unoffered or already-shared group must abort.",
+   note=NEGO_NOTE),
+ "C18": dict(level=MC, technique="TLC key-share grammar/size check on every wire hello + replay with the server forced to each offered group + TLC freshness formula over recorded hellos",
+   text="Every TLS 1.3 parrot x every offered group the server implements (share present or via HRR) must complete; share sizes per group and share groups subset of supported_groups are judged on the wire bytes in TLA+; across 16 (quick) / 128 (thorough) connections per parrot no share, random or session id repeats.",
+   note=NEGO_NOTE),
 }
 NOT_APPLICABLE = {}
